@@ -18,6 +18,7 @@ import (
 	"runtime"
 	"sync"
 	"syscall"
+	"time"
 	"unsafe"
 
 	seccomp "github.com/elastic/go-seccomp-bpf"
@@ -285,13 +286,41 @@ func enforce(c *Case) {
 		instMu.Unlock()
 	}
 	emit(map[string]any{"ev": "start", "pid": os.Getpid(), "tid": syscall.Gettid(), "goarch": goarch, "before": statusFields(syscall.Gettid())})
+	if c.SiblingLoads > 0 {
+		runtime.GOMAXPROCS(1)
+		seccomp.VerifPoint = func(name string) {
+			if name == "post-prctl" {
+				time.Sleep(300 * time.Microsecond)
+			}
+		}
+		sib := seccomp.Policy{DefaultAction: seccomp.ActionAllow, Syscalls: []seccomp.SyscallGroup{{Names: []string{"munlockall", "getpgrp", "sync"}, Action: seccomp.ActionLog}}}
+		started := make(chan struct{}, c.SiblingLoads)
+		for k := 0; k < c.SiblingLoads; k++ {
+			go func() {
+				runtime.LockOSThread()
+				started <- struct{}{}
+				for n := 0; n < 4; n++ {
+					seccomp.LoadFilter(seccomp.Filter{NoNewPrivs: true, Policy: sib})
+				}
+				select {} // the thread stays alive with its filters
+			}()
+		}
+		for k := 0; k < c.SiblingLoads; k++ {
+			<-started
+		}
+	}
 	err := seccomp.LoadFilter(f)
 	msg := ""
 	if err != nil {
 		msg = err.Error()
 	}
 	instMu.Lock()
-	ins := append([]installed(nil), installs...)
+	var ins []installed
+	for _, in := range installs {
+		if in.Tid == syscall.Gettid() { // sibling threads' loads are not the judged one
+			ins = append(ins, in)
+		}
+	}
 	instMu.Unlock()
 	emit(map[string]any{"ev": "loaded", "ok": err == nil, "err": msg, "tid": syscall.Gettid(), "installs": ins, "after": statusFields(syscall.Gettid())})
 	runProbes(c)
